@@ -695,6 +695,18 @@ class Exec:
             if len(infos) > 1:
                 q = [i for i in infos if _qual_match(tyfull, i[1])]
                 if len(q) == 1: infos = q
+            if len(infos) > 1:
+                # same type name defined in several modules: prefer the caller's own module
+                mods = [seg for seg in re.split(r'::|<impl at |/|\.rs', fr.fn.name) if re.fullmatch(r'[a-z_0-9]+', seg or '')]
+                q = [i for i in infos if any(('/' + mod + '.rs') in ('/' + i[1]) for mod in mods)]
+                if len(q) == 1: infos = q
+            if not infos and tr and simple_name(tr) == 'PartialEq' and method == 'ne':
+                eqs = prog.method_info('PartialEq', tys, 'eq')
+                if len(eqs) == 1:
+                    f0, rel0, tr0, ty0, der0 = eqs[0]
+                    if der0:
+                        return models.derived_model('PartialEq', 'ne')
+                    return (lambda ex, args, f0=f0: simp(b_not(ex.call_mir(f0, args))))
             if len(infos) == 1:
                 f, rel, tr_, ty_, derived = infos[0]
                 if derived:
@@ -833,6 +845,8 @@ def _dynamic_dispatch(ex0, trait, method, callee, infos=None):
 def _qual_match(tyfull, rel):
     """does type path text (e.g. `ir::Expression`) belong with an impl in file `rel`?"""
     t = tyfull or ''
+    for seg in re.findall(r'([a-z_0-9]+)::', t):
+        if ('/' + seg + '.rs') in ('/' + rel): return True
     if 'ir::' in t or 'intermediate_representation' in t:
         return 'intermediate_representation' in rel or 'control_flow_graph' in rel or 'program_analysis' in rel
     if 'ast::' in t or 'abstract_syntax_tree' in t:
